@@ -15,6 +15,7 @@ type verifJob struct {
 	Harness string   `json:"harness"`
 	Tier    int      `json:"tier"`
 	Vector  []uint64 `json:"vector"`
+	Known   []string `json:"known"`
 }
 
 type verifJobResult struct {
@@ -27,6 +28,10 @@ type verifJobResult struct {
 func verifRunJob(j verifJob) (res verifJobResult) {
 	res.ID = j.ID
 	verifVec, verifPos, verifFails, verifObs, verifReachedL, verifTierVal = j.Vector, 0, nil, nil, nil, j.Tier
+	verifKnownIDs = map[string]bool{}
+	for _, k := range j.Known {
+		verifKnownIDs[k] = true
+	}
 	fn, ok := verifHarnesses[j.Harness]
 	if !ok {
 		res.End = "NOHARNESS"
